@@ -193,3 +193,214 @@ Proof.
   - repeat constructor; unfold far; cbn; intros; try discriminate; unfold Model.Sfl.window_days; lia.
   - vm_compute. repeat split.
 Qed.
+
+(* ================================================================== *)
+(* The text layer: "--symbol-base SYM:shares:acb"
+   (src/app/input_parse.rs parse_initial_status, src/cmd.rs; model in
+   Model/InitSpec.v, Model/InitSpecCli.v; text = lists of bytes). *)
+From ACB Require Import Model.CsvFields Model.Bridge Model.InitSpec Model.InitSpecCli
+     Proofs.InitSpecProps Proofs.InitSpecCliProps.
+
+(* A specification is accepted, as (sym, n, c), exactly when it is
+   a ':' b ':' d  with no further ':' , sym = a without the white space
+   (Unicode White_Space) at its two ends and not empty, and b, d texts that
+   Decimal::from_str reads as n, c, both >= 0.  The amounts are not trimmed. *)
+Theorem C16_spec_accepted_iff_wellformed : forall s sym n c,
+  parse_spec s = Ok (sym, n, c) <->
+  exists a b d,
+    s = a ++ colon :: b ++ colon :: d /\ ~ In colon a /\ ~ In colon b /\ ~ In colon d
+    /\ trim a = sym /\ sym <> []
+    /\ (parse_dec b = Ok n /\ dec_gez n = true) /\ (parse_dec d = Ok c /\ dec_gez c = true).
+Proof. exact spec_accepted_iff_wellformed. Qed.
+Check C16_spec_accepted_iff_wellformed : forall s sym n c,
+  parse_spec s = Ok (sym, n, c) <->
+  exists a b d,
+    s = a ++ colon :: b ++ colon :: d /\ ~ In colon a /\ ~ In colon b /\ ~ In colon d
+    /\ trim a = sym /\ sym <> []
+    /\ (parse_dec b = Ok n /\ dec_gez n = true) /\ (parse_dec d = Ok c /\ dec_gez c = true).
+Print Assumptions C16_spec_accepted_iff_wellformed.
+
+(* The decimal texts of the usual shape - optional sign, digits w, optionally
+   '.' and digits f, at least one digit, at most 28 fractional digits, value
+   below 2^96 - are read as written: mantissa val (w ++ f), scale |f|. *)
+Theorem C16_plain_decimal_text : forall sg w f,
+  all_digits w -> all_digits f -> w ++ f <> [] -> (val (w ++ f) <= max_mant)%N -> (length f <= 28)%nat ->
+  parse_dec (sign_bytes sg ++ chars w ++ 46%N :: chars f)
+  = Ok (mk_dec (sign_neg sg && negb (val (w ++ f) =? 0)%N) (val (w ++ f)) (length f))
+  /\ (f = [] -> parse_dec (sign_bytes sg ++ chars w)
+                = Ok (mk_dec (sign_neg sg && negb (val w =? 0)%N) (val w) 0)).
+Proof. exact plain_decimal_text. Qed.
+Check C16_plain_decimal_text : forall sg w f,
+  all_digits w -> all_digits f -> w ++ f <> [] -> (val (w ++ f) <= max_mant)%N -> (length f <= 28)%nat ->
+  parse_dec (sign_bytes sg ++ chars w ++ 46%N :: chars f)
+  = Ok (mk_dec (sign_neg sg && negb (val (w ++ f) =? 0)%N) (val (w ++ f)) (length f))
+  /\ (f = [] -> parse_dec (sign_bytes sg ++ chars w)
+                = Ok (mk_dec (sign_neg sg && negb (val w =? 0)%N) (val w) 0)).
+Print Assumptions C16_plain_decimal_text.
+
+(* Every rejection and its message class, in the order of the checks
+   ([spec_rejected], Proofs/InitSpecProps.v: not exactly two ':' / empty
+   symbol / shares unreadable or negative / cost unreadable or negative;
+   [rej_unmodelled] = an amount with a '_' separator, outside the model). *)
+Theorem C16_spec_rejection_message : forall s e, parse_spec s = Rej e <-> spec_rejected s e.
+Proof. exact spec_rejected_iff. Qed.
+Check C16_spec_rejection_message : forall s e, parse_spec s = Rej e <-> spec_rejected s e.
+Print Assumptions C16_spec_rejection_message.
+
+(* Round trip: a symbol without ':' and without white space at its ends, any
+   two non-negative decimals (96-bit mantissa, scale up to 28), written
+   SYM:shares:acb with Display - read back as exactly that symbol (no case
+   folding) and exactly those decimals (same mantissa and scale: nothing is
+   rounded). *)
+Theorem C16_spec_roundtrip : forall sym n c,
+  ~ In colon sym -> trim sym = sym -> sym <> [] ->
+  d_neg n = false -> (d_mant n <= max_mant)%N -> (d_scale n <= 28)%nat ->
+  d_neg c = false -> (d_mant c <= max_mant)%N -> (d_scale c <= 28)%nat ->
+  parse_spec (sym ++ colon :: dec_to_string n ++ colon :: dec_to_string c) = Ok (sym, n, c).
+Proof. exact spec_roundtrip_explicit. Qed.
+Check C16_spec_roundtrip : forall sym n c,
+  ~ In colon sym -> trim sym = sym -> sym <> [] ->
+  d_neg n = false -> (d_mant n <= max_mant)%N -> (d_scale n <= 28)%nat ->
+  d_neg c = false -> (d_mant c <= max_mant)%N -> (d_scale c <= 28)%nat ->
+  parse_spec (sym ++ colon :: dec_to_string n ++ colon :: dec_to_string c) = Ok (sym, n, c).
+Print Assumptions C16_spec_roundtrip.
+
+(* The list: rejected exactly when some specification is malformed, with the
+   code of the FIRST malformed one; accepted exactly when all are well formed;
+   never a panic. *)
+Theorem C16_malformed_rejected_first : forall specs,
+  (forall e, parse_initial_status specs = Rej e <->
+     exists pre s post, specs = pre ++ s :: post /\ Forall wellformed pre /\ spec_rejected s e)
+  /\ ((exists l, parse_initial_status specs = Ok l) <-> Forall wellformed specs)
+  /\ (forall p, parse_initial_status specs <> Panic p).
+Proof. exact malformed_rejected_first. Qed.
+Check C16_malformed_rejected_first : forall specs,
+  (forall e, parse_initial_status specs = Rej e <->
+     exists pre s post, specs = pre ++ s :: post /\ Forall wellformed pre /\ spec_rejected s e)
+  /\ ((exists l, parse_initial_status specs = Ok l) <-> Forall wellformed specs)
+  /\ (forall p, parse_initial_status specs <> Panic p).
+Print Assumptions C16_malformed_rejected_first.
+
+(* The map: one entry per symbol; the entry of k is the position of the LAST
+   specification whose symbol is k (bytewise: "FOO" and "foo" are two keys);
+   no entry exactly when no specification names k. *)
+Theorem C16_last_spec_wins : forall specs l,
+  parse_initial_status specs = Ok l ->
+  NoDup (map fst l)
+  /\ (forall k v, al_find k l = Some v <->
+        exists pre s post, specs = pre ++ s :: post /\ wf_spec s k (fst v) (snd v)
+          /\ Forall (fun x => forall n c, ~ wf_spec x k n c) post)
+  /\ (forall k, al_find k l = None <-> Forall (fun x => forall n c, ~ wf_spec x k n c) specs).
+Proof. exact last_spec_wins. Qed.
+Check C16_last_spec_wins : forall specs l,
+  parse_initial_status specs = Ok l ->
+  NoDup (map fst l)
+  /\ (forall k v, al_find k l = Some v <->
+        exists pre s post, specs = pre ++ s :: post /\ wf_spec s k (fst v) (snd v)
+          /\ Forall (fun x => forall n c, ~ wf_spec x k n c) post)
+  /\ (forall k, al_find k l = None <-> Forall (fun x => forall n c, ~ wf_spec x k n c) specs).
+Print Assumptions C16_last_spec_wins.
+
+Theorem C16_two_specs : forall sym1 sym2 n1 c1 n2 c2,
+  plain_symbol sym1 -> plain_symbol sym2 ->
+  amount_value n1 -> amount_value c1 -> amount_value n2 -> amount_value c2 ->
+  parse_initial_status [show_spec sym1 n1 c1; show_spec sym2 n2 c2]
+  = Ok (if beqb sym1 sym2 then [(sym2, (n2, c2))] else [(sym1, (n1, c1)); (sym2, (n2, c2))]).
+Proof. exact two_specs. Qed.
+Check C16_two_specs : forall sym1 sym2 n1 c1 n2 c2,
+  plain_symbol sym1 -> plain_symbol sym2 ->
+  amount_value n1 -> amount_value c1 -> amount_value n2 -> amount_value c2 ->
+  parse_initial_status [show_spec sym1 n1 c1; show_spec sym2 n2 c2]
+  = Ok (if beqb sym1 sym2 then [(sym2, (n2, c2))] else [(sym1, (n1, c1)); (sym2, (n2, c2))]).
+Print Assumptions C16_two_specs.
+
+(* In front of the application model (cmd.rs): a malformed specification ends
+   the run with its code whatever the files are - nothing of them is read;
+   an accepted list hands over, per symbol, the opening position
+   [opening_status n c] of the ledger theorems above with 0 <= n, 0 <= c. *)
+Theorem C16_malformed_before_files : forall A tbl specs e,
+  parse_initial_status specs = Rej e -> forall fs, cli_run A tbl specs fs = Rej e.
+Proof. exact cli_malformed_before_files. Qed.
+Check C16_malformed_before_files : forall A tbl specs e,
+  parse_initial_status specs = Rej e -> forall fs, cli_run A tbl specs fs = Rej e.
+Print Assumptions C16_malformed_before_files.
+
+Theorem C16_accepted_positions : forall A tbl specs m,
+  parse_initial_status specs = Ok m ->
+  (forall fs, cli_run A tbl specs fs = read_and_run A tbl (spec_inits m) fs)
+  /\ Forall (fun x => exists n c, snd x = opening_status (dec_q n) (dec_q c)
+                                  /\ (0 <= dec_q n)%Qc /\ (0 <= dec_q c)%Qc
+                                  /\ al_find (fst x) m = Some (n, c)) (spec_inits m).
+Proof. exact cli_accepted_positions. Qed.
+Check C16_accepted_positions : forall A tbl specs m,
+  parse_initial_status specs = Ok m ->
+  (forall fs, cli_run A tbl specs fs = read_and_run A tbl (spec_inits m) fs)
+  /\ Forall (fun x => exists n c, snd x = opening_status (dec_q n) (dec_q c)
+                                  /\ (0 <= dec_q n)%Qc /\ (0 <= dec_q c)%Qc
+                                  /\ al_find (fst x) m = Some (n, c)) (spec_inits m).
+Print Assumptions C16_accepted_positions.
+
+(* Amounts of at most 28 bytes (every amount a person types): accepted by
+   Decimal::from_str exactly when they are plain decimal texts - optional
+   sign, digits, at most one '.', at least one digit - and then read as
+   written.  (Longer texts can reach the overflow / rounding paths of the
+   parser: [parse_dec] itself, C16_plain_decimal_text for the plain ones.) *)
+From ACB Require Import Proofs.InitSpecShort.
+Theorem C16_short_amount_iff : forall s d,
+  (length s <= 28)%nat ->
+  (parse_dec s = Ok d <->
+   exists sg w f,
+     all_digits w /\ all_digits f /\ w ++ f <> []
+     /\ (s = sign_bytes sg ++ chars w ++ 46%N :: chars f \/ (f = [] /\ s = sign_bytes sg ++ chars w))
+     /\ d = mk_dec (sign_neg sg && negb (val (w ++ f) =? 0)%N) (val (w ++ f)) (length f)).
+Proof. exact short_amount_iff. Qed.
+Check C16_short_amount_iff : forall s d,
+  (length s <= 28)%nat ->
+  (parse_dec s = Ok d <->
+   exists sg w f,
+     all_digits w /\ all_digits f /\ w ++ f <> []
+     /\ (s = sign_bytes sg ++ chars w ++ 46%N :: chars f \/ (f = [] /\ s = sign_bytes sg ++ chars w))
+     /\ d = mk_dec (sign_neg sg && negb (val (w ++ f) =? 0)%N) (val (w ++ f)) (length f)).
+Print Assumptions C16_short_amount_iff.
+
+(* Non-vacuity: what the code does with concrete texts. *)
+Import String.StringSyntax.
+Local Open Scope string_scope.
+Definition dN (m : N) (s : nat) : dec := mk_dec false m s.
+Definition nbsp : bytes := [194; 160]%N.
+Example C16_spec_examples :
+  parse_spec (B "FOO:0:0") = Ok (B "FOO", dN 0 0, dN 0 0)
+  /\ parse_spec (B " FOO :1.5:0.005") = Ok (B "FOO", dN 15 1, dN 5 3)          (* cost not rounded *)
+  /\ parse_spec (B "Brk.b:1:1") = Ok (B "Brk.b", dN 1 0, dN 1 0)                 (* no case folding *)
+  /\ parse_spec (B "FOO:+1:1") = Ok (B "FOO", dN 1 0, dN 1 0)
+  /\ parse_spec (B "FOO:1.:.50") = Ok (B "FOO", dN 1 0, dN 50 2)
+  /\ parse_spec (B "FOO:-0:0.00") = Ok (B "FOO", dN 0 0, dN 0 2)
+  /\ parse_spec (nbsp ++ [9%N] ++ B "FOO" ++ nbsp ++ B ":1:1")%list = Ok (B "FOO", dN 1 0, dN 1 0)
+  /\ parse_spec (B "FOO:1:0.00000000000000000000000000015") = Ok (B "FOO", dN 1 0, dN 2 28)
+  /\ parse_spec (B "FOO:1e3:1") = Rej rej_spec_shares
+  /\ parse_spec (B "FOO: 1:1") = Rej rej_spec_shares                              (* amounts are not trimmed *)
+  /\ parse_spec (B "FOO::") = Rej rej_spec_shares
+  /\ parse_spec (B "FOO:-1:2") = Rej rej_spec_shares_neg
+  /\ parse_spec (B "FOO:1:x") = Rej rej_spec_acb
+  /\ parse_spec (B "FOO:1:-0.01") = Rej rej_spec_acb_neg
+  /\ parse_spec (B "FOO:123456789012345678901234567890:1") = Rej rej_spec_shares  (* 30 digits *)
+  /\ parse_spec (B ":1:2") = Rej rej_spec_symbol
+  /\ parse_spec (B "  :1:2") = Rej rej_spec_symbol
+  /\ parse_spec (B "") = Rej rej_spec_parts
+  /\ parse_spec (B "FOO:1") = Rej rej_spec_parts
+  /\ parse_spec (B "FOO:1:2:3") = Rej rej_spec_parts
+  /\ parse_spec (B "FOO:1_000:1") = Rej rej_unmodelled.
+Proof. vm_compute. repeat split. Qed.
+
+Example C16_specs_examples :
+  parse_initial_status [B "FOO:1:1"; B "foo:2:2"; B " FOO:3:3.333"]
+  = Ok [(B "FOO", (dN 3 0, dN 3333 3)); (B "foo", (dN 2 0, dN 2 0))]
+  /\ parse_initial_status [B "FOO:1:1"; B "BAR"; B "FOO:x:1"] = Rej rej_spec_parts
+  /\ parse_initial_status [B "FOO:1:1"; B "FOO:x:1"; B "BAR"] = Rej rej_spec_shares
+  /\ parse_initial_status [] = Ok []
+  /\ plain_symbol (B "Brk.b") /\ amount_value (dN 5 3)
+  /\ beqb (B "FOO") (B "foo") = false.
+Proof.
+  vm_compute. repeat split; try discriminate. intros [H|H]; [discriminate|].
+  repeat (destruct H as [H|H]; [discriminate|]). exact H.
+Qed.
